@@ -41,8 +41,8 @@ func (e *StrListEncoder) Encode(sl []string) []byte {
 	binary.BigEndian.PutUint32(e.buf, uint32(len(sl)))
 	offset := 4
 	for _, s := range sl {
-		if len(s) > 65536 {
-			panic(fmt.Errorf("cell value %q is too long (%d > 65536)", s[:40]+"...", len(s)))
+		if len(s) > 65535 {
+			panic(fmt.Errorf("cell value %q is too long (%d > 65535)", s[:40]+"...", len(s)))
 		}
 		l := uint16(len(s))
 		binary.BigEndian.PutUint16(e.buf[offset:], l)
